@@ -56,7 +56,8 @@ def hdrsets(setters, vals):
 SINKFAULTS = '{[kind |-> "sink", slot |-> 0, when |-> ""], [kind |-> "short", slot |-> 0, when |-> ""], [kind |-> "shortnil", slot |-> 0, when |-> ""]}'
 PRODFAULTS = '{[kind |-> "producer", slot |-> s, when |-> w] : s \\in 1..4, w \\in {"before", "after", "seek", "eof", "eofplain"}}'
 INJ = ["crlf", "crlfcrlf", "lf", "cr", "nul", "ctl", "quotes", "encword", "badutf8", "utf8", "long", "token1000", "blanks", "tabs"]
-SETTERS = ["subject", "gen", "org", "ua", "msgid", "fromname", "toname", "mdnname"]
+SETTERS = ["subject", "gen", "org", "ua", "msgid", "fromname", "toname", "mdnname", "replyto", "hdr", "mdnadd", "envfrom"]
+FIXEDSETTERS = ["bulk", "importance", "hdrpre"]
 NAMECLS = '{"", "utf8", "path", "semi", "crlf", "nul", "quotes", "long", "dotted", "blanks"}'
 DESCCLS = '{"", "plain", "utf8", "longutf8", "crlf", "lf", "nul", "long", "quotes"}'
 LENS = '<<"size54", "size55", "size56", "size57", "size58", "size59", "size60", "size74", "size75", "size76", "size77", "size78", "size79", "size80", "size114", "size115", "size116", "size171", "size400", "size401", "size20000">>'
@@ -146,6 +147,8 @@ STAGES.update({
     'C02': {
         'quick': [
             ('header-setters', 'MimeBuild', cfg(MAXP='1', MAXE='0', MAXA='0', ENCS='{"qp", "b64"}', CCS='<<"crlf">>', HDRS=hdrsets(SETTERS, INJ))),
+            ('fixed-value-setters', 'MimeBuild', cfg(MAXP='1', MAXE='0', MAXA='1', ENCS='{"qp"}', CCS='<<"crlf">>', STYLES='{"", "set"}',
+                                                     HDRS=hdrsets(FIXEDSETTERS, ["plain", "utf8", "long", "blanks", "tabs"]))),
             ('part-and-file-options', 'MimeBuild', cfg(MAXP='2', MAXE='1', MAXA='1', ENCS='{"qp", "b64"}', CCS='<<"crlf">>', PDESCS=DESCCLS)),
             ('file-options', 'MimeBuild', cfg(MAXP='1', MAXE='1', MAXA='1', ENCS='{"qp", "b64"}', CCS='<<"crlf">>', FDESCS=DESCCLS, FNAMES='{"", "crlf", "path"}',
                                               FCIDS='{"", "plain", "crlf"}')),
